@@ -217,6 +217,51 @@ pub fn run_frag(c: &FCfg, ops: &[FOp]) -> FRun {
     run_frag_lockstep(&[(c, ops)], &[]).pop().unwrap()
 }
 
+/// Built and fed the first `cut` calls on this thread, then moved to a new thread for the rest (FragmentedMuxer is Send).
+pub fn run_frag_moved(c: &FCfg, ops: &[FOp], cut: usize) -> FRun {
+    let mut m = match build_frag(c) {
+        Ok(Ok(m)) => m,
+        Ok(Err(e)) => return FRun { built: false, build_err: Some(e), results: ops.iter().map(|_| FRes::Skipped).collect(), panic: None },
+        Err(p) => return FRun { built: false, build_err: None, results: ops.iter().map(|_| FRes::Skipped).collect(), panic: Some(p) },
+    };
+    let cut = cut.min(ops.len());
+    let mut results = Vec::with_capacity(ops.len());
+    let mut panic = None;
+    for op in &ops[..cut] {
+        if panic.is_some() {
+            results.push(FRes::Skipped);
+            continue;
+        }
+        let r = frag_step(&mut m, op);
+        if let FRes::Panic(p) = &r {
+            panic = Some(p.clone());
+        }
+        results.push(r);
+    }
+    let rest: Vec<FOp> = ops[cut..].to_vec();
+    let (mut tail, panic) = std::thread::spawn(move || {
+        let mut out = Vec::new();
+        let mut panic = panic;
+        for op in &rest {
+            if panic.is_some() {
+                out.push(FRes::Skipped);
+                continue;
+            }
+            let r = frag_step(&mut m, op);
+            if let FRes::Panic(p) = &r {
+                panic = Some(p.clone());
+            }
+            out.push(r);
+        }
+        drop(m);
+        (out, panic)
+    })
+    .join()
+    .expect("worker thread of run_frag_moved");
+    results.append(&mut tail);
+    FRun { built: true, build_err: None, results, panic }
+}
+
 /// Several fragmented muxers alive at once on one thread, taking turns one call at a time in the order given by `schedule`
 /// (indices into `runs`; exhausted histories are skipped; what is left afterwards runs history by history).
 pub fn run_frag_lockstep(runs: &[(&FCfg, &[FOp])], schedule: &[u8]) -> Vec<FRun> {
